@@ -165,6 +165,31 @@ def different_zones(ctx, bkind, ylo, yhi, akind="fixed", coarse=False):
     ctx.observe("c", list(c.values()))
 
 
+def same_offset_zones(ctx, ylo, yhi):
+    """two differently named zones that share one UTC offset: decomposed as the two instants in UTC"""
+    P = ctx.P
+    off = sym_offset(ctx, "f")
+    tzA, tzB = ctx.fixed_zone(off, "Verif/One"), ctx.fixed_zone(off, "Verif/Two")
+    ya, ma, da, ha, mia, sa, usa = sym_wall(ctx, "a", ylo, yhi)
+    yb, mb, db, hb, mib, sb, usb = sym_wall(ctx, "b", ylo, yhi)
+    ctx.assume(AND(sa == 0, usa == 0, sb == 0, usb == 0))
+    wa = cal.ymd2ord(ya, ma, da) * 86400 + cal.sod(ha, mia, 0)
+    wb = cal.ymd2ord(yb, mb, db) * 86400 + cal.sod(hb, mib, 0)
+    ctx.assume(wa <= wb)
+    a = P.DateTime(ya, ma, da, ha, mia, 0, 0, tzinfo=tzA)
+    b = P.DateTime(yb, mb, db, hb, mib, 0, 0, tzinfo=tzB)
+    r = b - a
+    c = _components(r)
+    ua = wa - off
+    o, s = divmod(ua, 86400)
+    (y0, m0, d0) = cal.ord2ymd(o)
+    tod = ((c["hours"] * 60 + c["minutes"]) * 60 + c["seconds"]) * 1000000 + c["microseconds"]
+    exp = _rebuild_ord(y0, m0, d0, c) * 86400 * 1000000 + s * 1000000 + tod
+    _range_claims(ctx, c, 1)
+    ctx.claim("decomposed as the two instants in UTC", exp == (wb - off) * 1000000)
+    ctx.observe("c", list(c.values()))
+
+
 def cases(tier):
     win = (1998, 2000) if tier == "quick" else (1901, 2000)
     dw = (1996, 2000) if tier == "quick" else (1601, 2000)
@@ -191,4 +216,6 @@ def cases(tier):
         out.append(dict(name=f"different zones {ak}/{bk}", fn=different_zones, params=dict(akind=ak, bkind=bk, ylo=2000, yhi=2000, coarse=(tier == "quick")),
                         bounds=f"every ordered pair ({ak} start, differently named {bk} end) in year 2000, any offsets"
                                + (", wall times on whole minutes" if tier == "quick" else "")))
+    out.append(dict(name="different zones sharing one offset", fn=same_offset_zones, params=dict(ylo=2000, yhi=2000),
+                    bounds="every ordered pair of whole-minute DateTimes in year 2000 in two differently named fixed zones with the same (any) offset"))
     return out
